@@ -327,6 +327,30 @@ pub fn run(ctx: &Ctx) -> Result<(), String> {
         }
     }
 
+    // the same load with the server's other documented modes on (health-check port, per-client
+    // statistics — as in example.cfg): every worker binds the health port and hands off statistics
+    {
+        let versions = [Version::Classic, Version::Ietf13, Version::Classic];
+        let plans: Vec<(usize, bool, bool, Vec<usize>, usize)> = ctx.tier.pick(vec![(2, true, true, vec![0, 1], 1)], vec![(2, true, false, vec![0, 1], 2), (2, true, true, vec![0, 1], 2), (3, true, true, vec![0, 1, 2], 1), (4, true, false, vec![0, 1, 2, 3], 1)]);
+        for (n, health, stats, dist, bound) in plans {
+            let scn = Scenario {
+                name: format!("load-n{}-health{}-stats{}-dist{:?}", n, health as u8, stats as u8, dist),
+                workers: n,
+                health,
+                stats,
+                batch_size: 2,
+                env: vec![],
+                idle_iteration: false,
+                horizon: 400,
+                expect: Expect::Serving,
+                probe_at_end: false,
+            };
+            let d2 = dist.clone();
+            let s = explore(ctx, "controlled-schedule/health-and-stats-modes", &scn, &move |slot: &Slot| env_for(slot, n, &d2, &versions), bound, ctx.tier.pick(1500, 30000), Duration::from_secs(ctx.tier.pick(25, 90)))?;
+            sched.merge(s);
+        }
+    }
+
     // requests that arrive EARLY: after main has bound every worker's socket, possibly before the
     // worker has built its Server and registered the socket; they are answered all the same
     {
